@@ -34,12 +34,12 @@ fn flat(width: u32) -> Vec<Reg> {
     (1..=width).map(|t| Reg::Sys { tag: t, name: format!("s{}", t), deps: vec![], reads: vec![], writes: vec![100 + t], time: 3, kind: SysKind::Dynamic }).collect()
 }
 
-/// cfg: user | default | batch | async | foreign | defbatch ; returns "arrived=<max simultaneously inside>;timeout=<0|1>;ok=<0|1>" per repetition
+/// cfg: user | default | batch | async | foreign | defbatch | batchfirst ; returns "arrived=<max simultaneously inside>;timeout=<0|1>;ok=<0|1>" per repetition
 pub fn observe(cfg: &str, width: u32, pool_size: usize, reps: u32, limit_ms: u64) -> String {
     let rec = Recorder::new(MapMode::B);
     rec.set_caller();
     let pool = Arc::new(rayon::ThreadPoolBuilder::new().num_threads(pool_size).build().unwrap());
-    let regs: Vec<Reg> = if cfg == "batch" {
+    let regs: Vec<Reg> = if cfg == "batch" || cfg == "batchfirst" {
         vec![Reg::Batch { tag: 1000, name: "b".into(), deps: vec![], creads: vec![], cwrites: vec![], time: 5, count: 1,
                           ctl: CtlKind { menu: 0, multi: false }, inner: flat(width) }]
     } else if cfg == "defbatch" {
@@ -50,8 +50,18 @@ pub fn observe(cfg: &str, width: u32, pool_size: usize, reps: u32, limit_ms: u64
         v.extend(flat(width));
         v
     } else { flat(width) };
-    let out = if cfg == "default" || cfg == "defbatch" { build(&regs, &rec, None) } else { build(&regs, &rec, Some(&pool)) };
-    let builder = match out.builder { Some(b) => b, None => return "builderr".into() };
+    let out = if cfg == "default" || cfg == "defbatch" { build(&regs, &rec, None) }
+    else if cfg == "batchfirst" {
+        // the batch is registered BEFORE the user pool is attached (add_batch builds the inner dispatcher at once, which
+        // creates a default pool in the shared cell - kept tiny here); add_pool afterwards must reach the batch too
+        let old = std::env::var("RAYON_NUM_THREADS").ok();
+        std::env::set_var("RAYON_NUM_THREADS", "1");
+        let o = build(&regs, &rec, None);
+        match old { Some(v) => std::env::set_var("RAYON_NUM_THREADS", v), None => std::env::remove_var("RAYON_NUM_THREADS") }
+        o
+    } else { build(&regs, &rec, Some(&pool)) };
+    let mut builder = match out.builder { Some(b) => b, None => return "builderr".into() };
+    if cfg == "batchfirst" { builder.add_pool(pool.clone()); }
     let rv = Arc::new(Rendezvous { width: width as usize, arrived: Mutex::new((0, 0)), cv: Condvar::new(), limit: Duration::from_millis(limit_ms),
                                    timed_out: Mutex::new(false), max_seen: Mutex::new(0) });
     let mut res = Vec::new();
